@@ -132,9 +132,12 @@ Theorem C12_crash_recoverable_process_welcome :
   smallest_failing_k "process_welcome" = None /\ forallb (recovers "process_welcome") (seq 0 8) = true.
 Proof. exact crash_recoverable_process_welcome_units. Qed.
 Print Assumptions C12_crash_recoverable_process_welcome.
-Theorem C12_crash_not_recoverable_accept_welcome : refuted_at "accept_welcome" 12.
-Proof. exact crash_not_recoverable_accept_welcome. Qed.
-Print Assumptions C12_crash_not_recoverable_accept_welcome.
+(* accept_welcome is recoverable at every cut: processing the welcome event again returns the stored welcome (whatever its
+   state) and accepting it again redoes every step.  (An earlier version listed this call as a finding because the harness
+   only re-accepted welcomes still listed as pending - the harness's assumption, not the code's: a false alarm, corrected.) *)
+Theorem C12_crash_recoverable_accept_welcome : forall k s x, recover k (call_of_kind "accept_welcome") s x = run_call (call_of_kind "accept_welcome") s x.
+Proof. exact crash_recoverable_accept_welcome. Qed.
+Print Assumptions C12_crash_recoverable_accept_welcome.
 Theorem C12_crash_not_recoverable_create_group :
   create_group_retry_same 27 = false /\ forallb create_group_retry_same (seq 0 27) = true.
 Proof. exact crash_not_recoverable_create_group. Qed.
